@@ -176,16 +176,14 @@ def run(ctx, chk, tier="quick"):
     # ---------------- O3 command
     g = ctx.func("simulate_rise.simulate_rise")
     gflow = Flow.of(g)
-    sites = [s for s in ctx.sites_in(g) if s.stmt is not None and s.stmt.kind == "select"]
-    if len(sites) != 1:
-        chk.indeterminate("C17.O3", where_of(g, g.node), "expected one SELECT in simulate_rise")
+    from ..sqlbind import bindings as _bindings
+    cands = [b_ for b_ in _bindings(ctx, g) if b_.kind == "columns"]     # own SELECTs and those of query helpers
+    if len(cands) != 1:
+        chk.indeterminate("C17.O3", where_of(g, g.node), "expected one master-curve query bound to column arrays in simulate_rise (found %d)" % len(cands))
         return
-    s = sites[0]
+    b = cands[0]
+    s = b.site
     sel = s.stmt
-    b = binding_of(ctx, g, s)
-    if b is None or b.kind != "columns":
-        chk.indeterminate("C17.O3", where_of(g, s.call), "result binding of the master-curve query not recognised")
-        return
     reads = {src.table for src in sel.sources}
     chk.ob("C17.O3", reads == {"average_rising_depth"}, where_of(g, s.call), "reads %s" % sorted(reads),
            "the measured master rise curve (view average_rising_depth)", key="simulate_rise|source")
